@@ -81,6 +81,10 @@ PANIC_TAG = {
     "range end index {} out of range for buffer of length {}": "range_end",
     "range starts at index {start} but ends at index {end}": "range_order",
 }
+# documented panics are tagged by *position* (the n-th `assert!` / `.expect()` of the function, in source
+# order), not by their message: the text of a panic message is not part of any property
+DOC_TAGS = {"swap": ["swap_i", "swap_j"],
+            "translate_range_bounds": ["range_start_overflow", "range_end_overflow", "range_end", "range_order"]}
 ASSERT_TAG = {"i index out-of-bounds": "swap_i", "j index out-of-bounds": "swap_j"}
 LEAN_KW = {"end", "from", "at", "in", "do", "then", "else", "fun", "let", "have", "show", "open", "by",
            "match", "with", "if", "where", "instance", "class", "structure", "def", "theorem", "this"}
@@ -481,10 +485,17 @@ class Emit:
         self.fname = fname
         self.fragment = fragment
         self.tmp = 0
+        self.ndoc = 0            # documented panics seen so far in this function
         self.iter_mode = False   # `self` is an `Iter { right, left }` value named `it`
         self.guards = set()   # local structs whose Drop impl drops a slice in place
         self.scope_guards = []  # guard values declared in the function body, in declaration order
         self.kinds = {}       # variable -> kind ('nat','slot','elem','view','range','pair:view','opt:nat',...)
+
+    def doc_tag(self):
+        tags = DOC_TAGS.get(self.fname, [])
+        tag = tags[self.ndoc] if self.ndoc < len(tags) else f"{self.fname}_doc{self.ndoc}"
+        self.ndoc += 1
+        return tag
 
     def fresh(self, p="t"):
         self.tmp += 1
@@ -792,7 +803,7 @@ class Emit:
                     "wrapping_add": f"({v} + {b}) % W", "wrapping_sub": f"({v} + W - {b}) % W"}[name]
             return p + p2, term, "nat"
         if name == "expect" and kk == "optnat" and args and args[0][0] == "str":
-            tag = PANIC_TAG.get(args[0][1], args[0][1])
+            tag = self.doc_tag()
             t = self.fresh("x")
             return p + [f"let {t} ← (match {v} with | some v => pure v | none => raise (.doc \"{tag}\"))"], t, "nat"
         if name == "len" and kk == "view" and not args:
@@ -905,7 +916,7 @@ class Emit:
             msg = args[1][1] if len(args) > 1 and args[1][0] == "str" else ""
             if name == "debug_assert":
                 return p + [f'dassert (decide ({c})) "{msg}"']
-            tag = ASSERT_TAG.get(msg, PANIC_TAG.get(msg, msg))
+            tag = self.doc_tag()
             return p + [f'if {c} then pure () else raise (.doc "{tag}")']
         if name == "debug_assert_eq":
             pa, a, _ = self.ex(args[0])
